@@ -169,6 +169,35 @@ class Formatter:
                             pos[ev[1]] = (ev[2], ev[3])
                     self.positions[kd] = pos
 
+    def _wrapper(self, path):
+        """(outer precedence, side) when `path` is a function of the formatter that only forwards its first parameter to
+        the sub-expression printer with a constant outer precedence and side (format_expression)."""
+        cache = self.__dict__.setdefault("_wrappers", {})
+        if path in cache:
+            return cache[path]
+        cache[path] = None
+        b = self.facts.bodies.get(path)
+        if b is None or b.get("crate") != FMT or b is self.sub_fn or "thir" not in b:
+            return None
+        calls = [c for c in F.exprs(b["thir"], "Call") if (c.get("fn") or "") == self.sub_fn["path"]]
+        others = [c for c in F.exprs(b["thir"], "Call") if (c.get("fn") or "") != self.sub_fn["path"] and not (c.get("fn") or "").startswith("core::")]
+        if len(calls) != 1 or others:
+            return None
+        a = calls[0]["args"]
+        v0 = F.leftmost_var(a[0])
+        p0 = b["params"][0]["pat"] if b.get("params") and b["params"][0].get("pat", {}).get("k") == "Bind" else None
+        if v0 is None or p0 is None or v0.get("id") != p0.get("id"):
+            return None
+        try:
+            outer = self.ip.ev(a[1], {}, 0)
+        except I.Unknown:
+            return None
+        sd = F.adt_ctor(a[2])
+        if not isinstance(outer, int) or not sd:
+            return None
+        cache[path] = (outer, sd[1])
+        return cache[path]
+
     def _field_of(self, e, binds):
         """Which field of the matched Expression variant a child expression is ('2[]' = element of a list field)."""
         tr = TF.Tracer(self.facts, max_depth=1)
@@ -261,6 +290,11 @@ class Formatter:
                         o = "?"
                     sd = F.adt_ctor(args[2])
                     out.append(("rec", field, o, sd[1] if sd else "?"))
+                    return
+                w = self._wrapper(n.get("rfn") or fn)
+                if w is not None:
+                    # a helper that prints its argument through the sub-expression printer with a fixed outer precedence / side
+                    out.append(("rec", self._field_of(args[0], binds), w[0], w[1]))
                     return
                 if fn.endswith("String::push") or fn.endswith("String::push_str"):
                     l = F.lit(args[1])
@@ -1061,7 +1095,7 @@ def rule_lit_roundtrip(chk, prefix="C09.lit"):
                     if "panicking" in str(e):
                         bad = bad or "%s(%r) for %s: printing or lexing aborts (%s)" % (kind, v, tgt, str(e)[:60])
                         continue
-                    return False
+                    return chk.unreadable("%s/roundtrip/readable" % prefix, "format_literal / token_intermediate", e, where(fl))
                 ok = False
                 if isinstance(r, I.Enum) and r.variant == "Ok":
                     rest, tok = r.fields["0"]
